@@ -171,7 +171,8 @@ impl Variant {
                     Ok(i) => i as i64,
                     _ => match parse_filesize(&self.string_value) {
                         Some(size) => size as i64,
-                        _ => 0,
+                        // a boolean counts as 1 or 0, also when only its text is left (a value kept per row)
+                        _ => (self.string_value == "true") as i64,
                     },
                 }
             }
@@ -190,7 +191,9 @@ impl Variant {
                 match float_value {
                     Ok(f) => f,
                     // the number a size denotes, not cut to whole bytes (`0.3k` is 307.2, `-1k` is -1024)
-                    _ => parse_filesize_exact(&self.string_value).unwrap_or(0.0),
+                    // a boolean counts as 1 or 0, also when only its text is left (a value kept per row)
+                    _ => parse_filesize_exact(&self.string_value)
+                        .unwrap_or((self.string_value == "true") as i64 as f64),
                 }
             }
         }
